@@ -179,9 +179,18 @@ def gen_pomdp(rng, abs_kind=None, smax=4, amax=3, omax=3, smin=1, amin=1, omin=1
         Ob = [[(_tiny_row(rng, nO, range(nO)) if (extremes and rng.random() < .3) else _row(rng, nO)) for _ in range(nS)] for _ in range(nA)]
         if dense:
             # informative observations: every observation possible everywhere, rows differ between next states
+            def peaked(t):
+                hi = rng.choice([h for h in (F(3, 4), F(7, 8), F(5, 8)) if (1 - h) * 8 >= nO - 1])
+                rest = [p * (1 - hi) for p in _split(rng, nO - 1, denom=int((1 - hi) * 8))] if nO > 2 else [1 - hi]
+                row = [F(0)] * nO
+                others = [o for o in range(nO) if o != t % nO]
+                row[t % nO] = hi
+                for o, p in zip(others, rest):
+                    row[o] = p
+                return row
             for _ in range(20):
-                Ob = [[_row(rng, nO, support=list(range(nO))) for _ in range(nS)] for _ in range(nA)]
-                if all(len({tuple(Ob[a][t]) for t in range(nS)}) == nS for a in range(nA)) or nO == 1:
+                Ob = [[(peaked(t) if rng.random() < .7 else _row(rng, nO, support=list(range(nO)))) for t in range(nS)] for _ in range(nA)]
+                if all(len({tuple(Ob[a][t]) for t in range(nS)}) >= min(nS, 2) for a in range(nA)) or nO == 1:
                     break
         if extremes:
             scale = rng.choice([1, 1000, 10 ** 6])        # large reward magnitudes
@@ -389,6 +398,15 @@ def gen_cases(rng, tier):
         if i % 3 == 1 and "domain" not in pc:
             c["pomdp_prev"] = _same_shape_pomdp(rng, pc, **kw)      # the learner object is first trained on this one
         cases.append(c)
+    # BPI sweeps: multi-node starts on POMDPs whose transitions move between states with different (informative)
+    # observation rows, 8 iterations, and EVERY stopping point k = 0..8 of the same run (iterations=k is a prefix of
+    # iterations=k+1): results returned right after an escape-node step, after a node improvement, after convergence;
+    # node values compared across consecutive stopping points and across every recorded evaluation
+    n_sweep = 10 if tier == "quick" else 40
+    for i in range(n_sweep):
+        pc = gen_pomdp(rng, abs_kind="none", smin=3, smax=3, amin=2, amax=2, omin=2, omax=2 + (i % 5 == 4), dense=True, labels=(i % 4 == 3))
+        cases.append({"kind": "bpi", "pomdp": pc, "nodes": 3 + i % 2 if i % 5 else 2, "seed": i % 3 if tier == "quick" else rng.randint(0, 9),
+                      "iterations": 8, "improve_fn": "matrix", "prefix": True, "runs": 1, "run_seed": rng.randrange(10 ** 6), "max_steps": 5})
     n_ga = 6 if tier == "quick" else 60
     for i in range(n_ga):
         kind = ["none", "benign", "paying"][i % 3]
@@ -611,6 +629,39 @@ def run(ctx):
                 # the returned controller/value must be the last evaluated one
                 if evs and (evs[-1]["pi"] != r["pi"] or evs[-1]["om"] != r["om"] or evs[-1]["V"] != r["V"]):
                     report("C09:bpi:result-not-last-evaluated-controller", {"case": case, "result": r, "last_eval": evs[-1]}, found=False)
+                # every stopping point k < iterations of the same run (prefix runs): each is a returned result
+                pre = res.get("prefix_results") or []
+                allres = pre + [r]
+                stops = []
+                for k_, rk in enumerate(pre):
+                    if "error" in rk:
+                        report("C09:bpi:raises:%s" % rk["error"].split(":")[0],
+                               {"case": case, "iterations": k_, "error": rk["error"], "clause": "the learner must always return a controller"}, found=True)
+                        continue
+                    if not (all_num(rk["pi"]) and all_num(rk["om"]) and all_num(rk["init"]) and all_num(rk["V"]) and is_num(rk["value"])):
+                        report("C09:bpi:nonfinite-result", {"case": case, "iterations": k_, "impl": rk}, found=True)
+                        continue
+                    stops.append(rk["V"])
+                    nxt = allres[k_ + 1]
+                    if all(rk.get(key) == nxt.get(key) for key in ("pi", "om", "init", "V", "value")):
+                        continue        # same result as the next stopping point (checked there)
+                    sck = scale_of(rk["V"])
+                    terms.append("lc %s %s %s %s %s %s %s %s %s" % (pt, fsc_term(len(rk["pi"]), rk["pi"], rk["om"], rk["init"]), qmat(rk["V"]),
+                                                                   q(rk["value"]), q(rtol), q(kap), q(kap), q(F(1, 10 ** 7) * sck), q(F(1, 10 ** 8) * sck)))
+                    meta.append(("lc", i, {"tol": F(1, 10 ** 7) * sck, "vtol": F(1, 10 ** 8) * sck, "rtol": rtol, "result": rk, "iterations": k_}))
+                    feats["bpi_stopping_points_checked"] = feats.get("bpi_stopping_points_checked", 0) + 1
+                    if k_ >= 1 and "pi" in allres[k_ - 1] and len(rk["pi"]) > len(allres[k_ - 1]["pi"]):
+                        feats["bpi_results_right_after_escape_step"] = feats.get("bpi_results_right_after_escape_step", 0) + 1
+                if pre:
+                    stops.append(r["V"])
+                    kchain = []
+                    for V_ in stops:
+                        if not kchain or V_ != kchain[-1]:
+                            kchain.append(V_)
+                    if len(kchain) >= 2:
+                        # node values across consecutive stopping points k -> k+1 never decrease
+                        terms.append("mc %s %s %s" % (q(F(1, 10 ** 7) * sc), nat(pc["nS"]), coqlist(qmat(V) for V in kchain)))
+                        meta.append(("mc", i, {"chain": kchain, "across": "iteration counts k -> k+1"}))
                 chain = []
                 for e in evs:
                     if not chain or e["V"] != chain[-1]:
@@ -621,9 +672,13 @@ def run(ctx):
                 # accepted node replacements
                 cur = None
                 ei = 0
+                nstp = 0
                 for lp in res["lps"]:
                     if not lp["improved"]:
                         continue
+                    nstp += 1
+                    if nstp > (3 if case.get("prefix") else 6):   # long sweeps accept dozens of steps: the first few per run are checked step by step
+                        break           # (all of them are covered by the monotone-chain check of the recorded tables)
                     # controller in force when the LP was posed = the last evaluated controller whose table is V_in
                     prev = next((e for e in reversed(evs) if e["V"] == lp["V_in"]), None)
                     if prev is None:
@@ -640,7 +695,7 @@ def run(ctx):
                     terms.append("stp %s %s %s %s %s %s" % (pt, f2, q(F(1, 10 ** 6) * sc), qmat(lp["V_in"]), nat(lp["node"]), q(lp["epsilon"])))
                     meta.append(("stp", i, {"lp": lp}))
 
-    vals = ctx.coq(PRE, terms, shard=6 if tier == "quick" else 12)
+    vals = ctx.coq(PRE, terms, shard=10 if tier == "quick" else 14)
     counts = {"ev": 0, "hi": 0, "lc": 0, "mc": 0, "stp": 0}
     cert_ok = eval_defect = hist_defect = hist_equal = hist_theorem_cases = hist_total = hist_drift = 0
     for (kind, i, extra), v in zip(meta, vals):
@@ -736,7 +791,7 @@ def run(ctx):
         elif kind == "lc":
             learner = case["kind"]
             fl_ = dict(zip(LEARN_CLAUSES, v))
-            r = res["result"]
+            r = extra.get("result") or res["result"]      # a prefix run's result, or the final one
             if not fl_["pomdp_wfb"]:
                 report("C09:harness:generated-case-illformed", {"case": case, "flags": fl_}, found=False)
                 continue
@@ -747,7 +802,7 @@ def run(ctx):
             if fl_["rows_valid"] and not (fl_["bounded"] and fl_["contraction"]):
                 report("C09:harness:l1-bound-too-tight", {"case": case, "flags": fl_}, found=False)
             if not fl_["system_masked"]:
-                detail = {"case": case, "flags": fl_, "result": r, "absorbing": pc["absorbing"],
+                detail = {"case": case, "flags": fl_, "result": r, "absorbing": pc["absorbing"], "iterations": extra.get("iterations", case.get("iterations")),
                           "clause": "reported value table = exact evaluation (return of running) of the RETURNED controller"}
                 if fl_["system_code"] and not fl_["abs_benign"]:
                     eval_defect += 1
@@ -765,7 +820,7 @@ def run(ctx):
                         for s in range(pc["nS"]):
                             if vlib.frac(ch[j][n][s]) > vlib.frac(ch[j + 1][n][s]) + F(1, 10 ** 7) * scale_of(ch[j]):
                                 bad = bad or {"table": j, "node": n, "state": s, "before": float(vlib.frac(ch[j][n][s])), "after": float(vlib.frac(ch[j + 1][n][s]))}
-                report("C09:bpi:value-decreased", {"case": case, "first": bad,
+                report("C09:bpi:value-decreased", {"case": case, "first": bad, "across": extra.get("across", "recorded evaluations of one run"),
                                                    "clause": "bounded policy iteration never lowers the value of any node at any state"}, found=bad is not None)
         elif kind == "stp":
             if v is not True:
